@@ -1,6 +1,6 @@
 """C16 — umbrella over the integration groups (written by tools_assemble_props.py)."""
 PID = "C16"
-PARTS = ['c16a', 'c16b']
+PARTS = ['c16a', 'c16b', 'c16c']
 LEVEL = "proof"
 RULE = ("per integration group: every encoder/decoder entry point x every harness width x boundary-biased values / "
         "mutated encodings (see the part modules vlib/p_c16?.py); non-trivial and distinct as defined there")
